@@ -245,6 +245,43 @@ func (x *Exec) hoistAll(st *State, es ...ast.Expr) []*State {
 	return cur
 }
 
+type pendingPanic struct{ cond, why string }
+
+// addPendingPanic: the operation just evaluated panics when cond holds (in evaluation order).
+func addPendingPanic(st *State, cond, why string) {
+	pl, _ := st.names["$pendingPanicConds"].([]pendingPanic)
+	st.names["$pendingPanicConds"] = append(append([]pendingPanic{}, pl...), pendingPanic{cond, why})
+}
+
+// forkPendingPanics: the statement just executed contained an operation that panics (under a
+// condition, or possibly): returns the panicking continuations and leaves c as the normal one.
+func (x *Exec) forkPendingPanics(c *State) []*State {
+	var out []*State
+	if pl, ok := c.names["$pendingPanicConds"].([]pendingPanic); ok {
+		delete(c.names, "$pendingPanicConds")
+		for _, pp := range pl {
+			if c.out == outNormal && !c.infeasible(pp.cond) {
+				p := c.clone()
+				p.assume(pp.cond)
+				p.out = outPanic
+				p.note = pp.why
+				out = append(out, p)
+				c.assume(not(pp.cond))
+			}
+		}
+	}
+	if why, ok := c.names["$pendingPanic"]; ok {
+		delete(c.names, "$pendingPanic")
+		if c.out == outNormal {
+			p := c.clone()
+			p.out = outPanic
+			p.note = fmt.Sprint(why) + " panics"
+			out = append(out, p)
+		}
+	}
+	return out
+}
+
 func (x *Exec) execStmt(s ast.Stmt, st *State) []*State {
 	switch s := s.(type) {
 	case *ast.BlockStmt:
@@ -256,26 +293,7 @@ func (x *Exec) execStmt(s ast.Stmt, st *State) []*State {
 		for _, c := range x.hoist(s.X, st) {
 			if c.out == outNormal {
 				x.eval(s.X, c)
-				if cond, ok := c.names["$pendingPanicCond"].(string); ok {
-					delete(c.names, "$pendingPanicCond")
-					if c.out == outNormal && !c.infeasible(cond) {
-						p := c.clone()
-						p.assume(cond)
-						p.out = outPanic
-						p.note = "integer divide by zero"
-						out = append(out, p)
-						c.assume(not(cond))
-					}
-				}
-				if why, ok := c.names["$pendingPanic"]; ok {
-					delete(c.names, "$pendingPanic")
-					if c.out == outNormal {
-						p := c.clone()
-						p.out = outPanic
-						p.note = fmt.Sprint(why) + " panics"
-						out = append(out, p)
-					}
-				}
+				out = append(out, x.forkPendingPanics(c)...)
 			}
 			out = append(out, c)
 		}
@@ -306,6 +324,7 @@ func (x *Exec) execStmt(s ast.Stmt, st *State) []*State {
 		for _, c := range x.hoistAll(st, all...) {
 			if c.out == outNormal {
 				x.execAssign(s, c)
+				out = append(out, x.forkPendingPanics(c)...)
 			}
 			out = append(out, c)
 		}
@@ -396,6 +415,8 @@ func (x *Exec) execStmt(s ast.Stmt, st *State) []*State {
 		return outs
 	case *ast.DeferStmt:
 		return x.execDefer(s, st)
+	case *ast.SelectStmt:
+		return x.execSelect(s, st)
 	case *ast.GoStmt:
 		x.noteAssume("go statement: the spawned activation is not followed (arguments are evaluated)")
 		x.evalArgs(s.Call.Args, st)
@@ -407,6 +428,53 @@ func (x *Exec) execStmt(s ast.Stmt, st *State) []*State {
 	}
 	engineFail("unsupported statement %T", s)
 	return nil
+}
+
+// execSelect: a select statement proceeds with any one of its communication clauses (which one is
+// the scheduler's and the peers' choice): every clause is a possible continuation.  A received value
+// is unconstrained; a send evaluates its operands.
+func (x *Exec) execSelect(s *ast.SelectStmt, st *State) []*State {
+	x.noteAssume("select statement: every communication clause is taken as a possible continuation; received values are unconstrained; blocking forever is not modelled")
+	var out []*State
+	for _, cl := range s.Body.List {
+		cc := cl.(*ast.CommClause)
+		t := st.clone()
+		switch c := cc.Comm.(type) {
+		case nil:
+			t.trace = append(t.trace, "default")
+		case *ast.SendStmt:
+			x.eval(c.Chan, t)
+			x.eval(c.Value, t)
+		case *ast.ExprStmt:
+			if u, ok := unparen(c.X).(*ast.UnaryExpr); ok {
+				x.eval(u.X, t)
+			}
+		case *ast.AssignStmt:
+			// v := <-ch / v, ok := <-ch / v = <-ch
+			if u, ok := unparen(c.Rhs[0]).(*ast.UnaryExpr); ok {
+				x.eval(u.X, t)
+			}
+			for _, l := range c.Lhs {
+				id, ok := l.(*ast.Ident)
+				if !ok || id.Name == "_" {
+					continue
+				}
+				o := x.info().ObjectOf(id)
+				if o == nil {
+					continue
+				}
+				x.nfresh++
+				t.env[o] = x.freshOf(t, fmt.Sprintf("recv_%s_%d", id.Name, x.nfresh), o.Type())
+			}
+		}
+		for _, o := range x.execBlock(cc.Body, t) {
+			if o.out == outBreak && o.label == "" {
+				o.out = outNormal
+			}
+			out = append(out, o)
+		}
+	}
+	return out
 }
 
 func (x *Exec) execDefer(s *ast.DeferStmt, st *State) []*State {
